@@ -71,11 +71,12 @@ class World(OpsMixin, OracleMixin):
         self.log.append((kind, lp.vf_iteration, lp.vf_handle_no) + data)
         return len(self.log) - 1
 
-    def violate(self, clause, msg):
+    def violate(self, clause, msg, pool=None):
         if self.checks_on and len(self.viol) < self.max_viol:
-            self.viol.append(
-                {"clause": clause, "msg": msg, "at": len(self.log), "triggers": sorted(self.triggers)}
-            )
+            v = {"clause": clause, "msg": msg, "at": len(self.log), "triggers": sorted(self.triggers)}
+            if pool is not None:
+                v["pool"] = pool
+            self.viol.append(v)
 
     def new_exc(self, site):
         e = Injected(site)
@@ -421,6 +422,8 @@ class World(OpsMixin, OracleMixin):
         if t.unbegun_cancelled and t.ccb == 0:
             # no callback configured at all: completion is not observable
             t.done_unknown = True
+            if t.pool.flushes and t.forget == "kept":
+                t.forget = "maybe"
             return
         self._complete(t)
 
